@@ -8,6 +8,7 @@
   exception propagates".  In each case exactly k+1 calls were made and the waits had exponents 0 … k-1.
 -/
 import Bubus.Model.Retry
+import Bubus.Proofs.Siblings
 namespace Bubus.Thm
 open Bubus Bubus.Retry
 
@@ -120,6 +121,17 @@ theorem C19_cutoff_counts_as_a_failed_attempt (retries : Nat) (atts : List Att) 
   unfold retryLoop
   simp only [if_true]
   split <;> simp
+
+/-- C19: one wait between each pair of consecutive calls, none before the first and none after the last: for any
+    outcome list that covers all `retries + 1` possible attempts the number of waits is the number of calls minus one. -/
+theorem C19_one_wait_between_consecutive_calls (retries : Nat) (tl : Bool) (atts : List Att)
+    (hlen : retries + 1 ≤ atts.length) :
+    (Retry.run retries tl atts).waits.length + 1 = (Retry.run retries tl atts).calls := by
+  have hw := C19_wait_exponents_are_0_1_2 retries tl atts hlen
+  have hp := retryLoop_calls_pos retries tl atts 0 (by simpa using hlen) (Nat.zero_le _)
+  rw [hw, List.length_range]
+  simp only [Retry.run] at hp ⊢
+  omega
 
 /-- non-vacuity: two listed failures and a cut-off, then a success, with retries = 3 -/
 example : Retry.run 3 true ([.listed 7, .overrun, .listed 9] ++ .ok 5 :: [.listed 1]) =
